@@ -672,6 +672,10 @@ class Penetration(PairScenario):
             overlap = bool(d == 0) if is_symbolic(d) else d == 0.0
             if not overlap:
                 return ["no overlap"]
+            if self.args.get("interleave", True):
+                # history: another distance query happens between gjk() and epa() (collect overlaps first, resolve later)
+                a3, b3 = PairScenario.colliders(self, cx, inp)
+                G.gjk_distance_jolt(b3, a3)
             if seen.get("n", 4) < 4:
                 # fewer than 4 valid rows: the rest of the buffer is stale or uninitialised (np.empty)
                 for i in range(seen["n"], 4):
@@ -743,7 +747,9 @@ PEN_SWEEPS = [
 def penetration_jobs(tier, seed, algo):
     J = []
     P = POLY_CORPUS
-    pairs = PEN_PAIRS if tier == "quick" else [(i, j) for i in (0, 1, 2, 3, 7, 8, 9, 11) for j in (0, 1, 2, 3, 7, 8, 9, 11)]
+    # thorough = the same pairs on all five sweeps with a larger budget: known findings are listed per scenario (K05.*),
+    # so the scenario set is kept enumerable
+    pairs = PEN_PAIRS
     for pi, (i, j) in enumerate(pairs):
         for si, sw in enumerate(PEN_SWEEPS):
             if tier == "quick" and (pi + si) % 2 == 1:      # seed-independent: known findings are listed per scenario
